@@ -13,6 +13,7 @@ PRELUDE = r'''
 from dataclasses import dataclass, field, fields, is_dataclass
 from typing import Optional, List, Dict, NamedTuple, Union
 from mashumaro import DataClassDictMixin
+from mashumaro.mixins.msgpack import DataClassMessagePackMixin
 from mashumaro.config import (BaseConfig, ADD_DIALECT_SUPPORT, TO_DICT_ADD_OMIT_NONE_FLAG,
                               TO_DICT_ADD_BY_ALIAS_FLAG)
 from mashumaro.dialect import Dialect
@@ -97,11 +98,12 @@ FIELD_SRC = {
     "str": "str = 's'",
     "inner": "Inner = field(default_factory=Inner)",
     "optstr": "Optional[str] = None",
+    "bytes": "bytes = b'ab'",
 }
 
 
 def class_src(name: str, cspec: dict) -> str:
-    base = cspec.get("base") or "DataClassDictMixin"
+    base = cspec.get("base") or cspec.get("mixin") or "DataClassDictMixin"
     lines = ["@dataclass", f"class {name}({base}):", f"    t_{name}: Tag = field(default_factory=Tag)"]
     for f, kind in cspec["fields"]:
         lines.append(f"    {f}: " + FIELD_SRC[kind].format(f=f))
@@ -164,6 +166,8 @@ class Family:
                 v = self.instance("Inner", v)
             elif kind == "list":
                 v = list(v)
+            elif kind == "bytes":
+                v = bytes.fromhex(v)
             kw[f] = v
         return self.ns[name](**kw)
 
@@ -199,13 +203,17 @@ def canon(v, sort_dicts=False):
     return (tn, repr(v))
 
 
-def call_to_dict(fam: Family, cname: str, vals: dict, di, **kw):
+def call_to_dict(fam: Family, cname: str, vals: dict, di, msgpack_format=False, **kw):
     """-> (canonical result | ('exc', type name), identity flags of list fields, raw result)"""
     inst = fam.instance(cname, vals)
     args = dict(kw)
     if di is not None:
         args["dialect"] = fam.dialect(di)
     try:
+        if msgpack_format:
+            import msgpack
+            out = msgpack.unpackb(inst.to_msgpack(**args), raw=False)
+            return canon(out), (), out
         out = inst.to_dict(**args)
     except Exception as e:  # noqa: BLE001
         return ("exc", type(e).__name__), (), None
@@ -217,13 +225,17 @@ def call_to_dict(fam: Family, cname: str, vals: dict, di, **kw):
     return canon(out), tuple(ident), out
 
 
-def call_from_dict(fam: Family, cname: str, doc, di):
+def call_from_dict(fam: Family, cname: str, doc, di, msgpack_format=False):
     import copy
     args = {}
     if di is not None:
         args["dialect"] = fam.dialect(di)
     try:
-        res = fam.cls(cname).from_dict(copy.deepcopy(doc), **args)
+        if msgpack_format:
+            import msgpack
+            res = fam.cls(cname).from_msgpack(msgpack.packb(doc, use_bin_type=True), **args)
+        else:
+            res = fam.cls(cname).from_dict(copy.deepcopy(doc), **args)
     except Exception as e:  # noqa: BLE001
         return ("exc", type(e).__name__), None
     return canon(res), res
@@ -233,7 +245,8 @@ def own_cache_keys(fam: Family, cname: str, direction: str):
     """Dialect indexes (insertion order) in the class's OWN cache dict; None if it has none."""
     if cname not in fam.defined:
         return None
-    attr = "__dialect_dict_packer_cache__" if direction == "to" else "__dialect_dict_unpacker_cache__"
+    attr = {"to": "__dialect_dict_packer_cache__", "from": "__dialect_dict_unpacker_cache__",
+            "mto": "__dialect_msgpack_packer_cache__", "mfrom": "__dialect_msgpack_unpacker_cache__"}[direction]
     d = fam.cls(cname).__dict__.get(attr)
     if d is None:
         return None
